@@ -126,3 +126,25 @@ Qed.
 From UsimGen Require SourcePins Pin_C09.
 Theorem C09_modelled_source_unchanged : forallb SourcePins.pin_ok Pin_C09.pins = true.
 Proof. exact Pin_C09.src_unchanged. Qed.
+
+(** ** link to the whole-program machine (LockLink.v): under an explicit relation [link] between the machine's object
+    state and a protocol state, every atomic section of the machine's lock code is a protocol transition (by symbolic
+    execution of [exec] for an arbitrary machine state, stack and continuation), so the protocol invariants hold of
+    the machine's lock objects *)
+From Usim Require LockLink.
+Theorem C09_machine_mutex :
+  forall o l wk s, LockLink.link o l wk s -> LockProto.reachable s ->
+    forall a b n m, LockProto.ph s a = LockProto.Inside n -> LockProto.ph s b = LockProto.Inside m ->
+      a = b /\ Machine.l_owner (Lib.get_lock o l) = Some a /\
+      Machine.l_depth (Lib.get_lock o l) = BinInt.Z.of_nat n /\ 1 <= n.
+Proof. exact LockLink.machine_mutex. Qed.
+Theorem C09_machine_free_iff_idle :
+  forall o l wk s, LockLink.link o l wk s -> LockProto.reachable s ->
+    (Machine.l_owner (Lib.get_lock o l) = None <-> (forall a, LockProto.ph s a = LockProto.Idle)).
+Proof. exact LockLink.machine_free_iff_idle. Qed.
+Theorem C09_machine_exit_is_protocol_exit :
+  forall o l wk s a n, LockLink.link o l wk s -> LockProtoProps.inv s -> LockProto.ph s a = LockProto.Inside (S n) ->
+    exists s', LockProto.step s (LockProto.Exit a) = Some s' /\ LockLink.link (LockLink.sec_exit o l) l wk s'.
+Proof. exact LockLink.sim_exit. Qed.
+Print Assumptions C09_machine_mutex.
+Print Assumptions C09_machine_exit_is_protocol_exit.
